@@ -66,6 +66,7 @@ class SimChain:
         self.accepted_broadcasts = []   # txids accepted through submit()
         self.faucet_pub = ec.pub_from_priv(FAUCET_PRIV, True)
         self.faucet_script = rscript.p2wpkh_script(hashes.hash160(self.faucet_pub))
+        self.faucet_script_legacy = rscript.p2pkh_script(hashes.hash160(self.faucet_pub))
         self._cb_counter = 0
         # pre-history: start_height empty-ish blocks are not materialised; the first real block is start_height
         self._next_height = start_height
@@ -177,7 +178,8 @@ class SimChain:
     def mine(self, max_txs=None, extra_coinbase_outputs=()):
         """Mine a block containing the mempool (first max_txs entries) on top of the tip."""
         height = self._next_height
-        outs = [(self.faucet_script, 50 * 100_000_000)] + list(extra_coinbase_outputs)
+        outs = [(self.faucet_script, 50 * 100_000_000), (self.faucet_script_legacy, 10 * 100_000_000)] + \
+            list(extra_coinbase_outputs)
         cb = self._coinbase_tx(height, outs)
         take = self.mempool if max_txs is None else self._closed_prefix(max_txs)
         txids = [cb.txid()] + list(take)
@@ -221,27 +223,34 @@ class SimChain:
                 taken.add(txid)
         return take
 
-    def fund(self, outputs, fee=1000, sequence=0xffffffff, version=2, locktime=0):
-        """Pay outputs [(script, value)] from the faucet with a real, signed P2WPKH spend (mempool)."""
+    def fund(self, outputs, fee=1000, sequence=0xffffffff, version=2, locktime=0, legacy=False):
+        """Pay outputs [(script, value)] from the faucet with a real, signed P2WPKH (or, legacy=True, P2PKH) spend
+        (mempool)."""
         need = sum(v for _, v in outputs) + fee
         picked, tot = [], 0
+        from_script = self.faucet_script_legacy if legacy else self.faucet_script
         for op, (spk, val) in self.utxo.items():
-            if spk == self.faucet_script and self.txs[op[0]].height is not None:
+            if spk == from_script and self.txs[op[0]].height is not None:
                 picked.append((op, val))
                 tot += val
                 if tot >= need:
                     break
         if tot < need:
             self.mine()
-            return self.fund(outputs, fee, sequence, version, locktime)
+            return self.fund(outputs, fee, sequence, version, locktime, legacy)
         vin = [RefIn(prev_txid=bytes.fromhex(op[0])[::-1], vout=op[1], script_sig=b'', sequence=sequence, witness=[])
                for op, _ in picked]
         vout = [RefOut(value=v, script_pubkey=s) for s, v in outputs]
         if tot - need > 0:
-            vout.append(RefOut(value=tot - need, script_pubkey=self.faucet_script))
-        tx = RefTx(version=version, vin=vin, vout=vout, locktime=locktime, segwit=True)
+            vout.append(RefOut(value=tot - need, script_pubkey=from_script))
+        tx = RefTx(version=version, vin=vin, vout=vout, locktime=locktime, segwit=not legacy)
         code = rscript.p2pkh_script(hashes.hash160(self.faucet_pub))
         for i, (op, val) in enumerate(picked):
+            if legacy:
+                z = int.from_bytes(rsighash.legacy_sighash(tx, i, code, 1), 'big')
+                r, s = ec.ecdsa_sign(FAUCET_PRIV, z)
+                tx.vin[i].script_sig = rscript.push(ec.ser_der(r, s) + b'\x01') + rscript.push(self.faucet_pub)
+                continue
             z = int.from_bytes(rsighash.bip143_sighash(tx, i, code, val, 1), 'big')
             r, s = ec.ecdsa_sign(FAUCET_PRIV, z)
             tx.vin[i].witness = [ec.ser_der(r, s) + b'\x01', self.faucet_pub]
